@@ -64,6 +64,58 @@ func (ev *Eval) Bool(x ast.Expr) *smt.Term {
 	return t
 }
 
+// Goal evaluates a postcondition that is going to be checked for validity:
+// universal quantifiers in positive position become fresh free variables
+// (which validity quantifies universally), so the solver sees no quantifier.
+func (ev *Eval) Goal(x ast.Expr) *smt.Term {
+	switch e := x.(type) {
+	case *ast.ParenExpr:
+		return ev.Goal(e.X)
+	case *ast.BinaryExpr:
+		if e.Op == token.LAND {
+			return smt.And(ev.Goal(e.X), ev.Goal(e.Y))
+		}
+	case *ast.CallExpr:
+		if id, ok := e.Fun.(*ast.Ident); ok {
+			switch id.Name {
+			case "implies_":
+				l := ev.Bool(e.Args[0])
+				if l.IsFalse() {
+					return smt.True
+				}
+				return smt.Implies(l, ev.Goal(e.Args[1]))
+			case "forall_":
+				fl := e.Args[0].(*ast.FuncLit)
+				body := fl.Body.List[0].(*ast.ReturnStmt).Results[0]
+				c := ev.child()
+				expandable := false
+				if len(fl.Type.Params.List) == 1 && len(fl.Type.Params.List[0].Names) == 1 {
+					if lo, hi, ok := ev.rangeOf(body, fl.Type.Params.List[0].Names[0].Name, true); ok && hi-lo <= 4096 {
+						expandable = true
+					}
+				}
+				if expandable {
+					return ev.Bool(x)
+				}
+				for _, f := range fl.Type.Params.List {
+					var t types.Type = types.Typ[types.Int]
+					if tid, ok := f.Type.(*ast.Ident); ok {
+						if bt, ok := basicByName[tid.Name]; ok {
+							t = bt
+						}
+					}
+					w, _ := bitsOf(t)
+					for _, n := range f.Names {
+						c.Vars[n.Name] = TV{ev.P.Fresh("all."+n.Name, smt.BV(w)), t}
+					}
+				}
+				return c.Goal(body)
+			}
+		}
+	}
+	return ev.Bool(x)
+}
+
 func untyped(v TV) (*big.Int, bool) {
 	if v.T != nil {
 		return nil, false
